@@ -345,7 +345,7 @@ def check_c22(case, log, oc, labels):
                 # auto-restart at reboot: exactly at a date the host comes back
                 ons = [d for d, on in Ref.switches(ref.hstate_ev) if on]
                 if not any(close(T(l["t"]), d) for d in ons):
-                    oc.bad("restart-at-wrong-date", "w0 restarted at %r, h0 comes back at %r" % (T(l["t"]), ons[:5]))
+                    oc.bad(pre + "restart-at-wrong-date", "w0 restarted at %r, h0 comes back at %r" % (T(l["t"]), ons[:5]))
                 labels.add("auto-restart-at-reboot")
             if l["k"] != "req":
                 continue
@@ -359,7 +359,7 @@ def check_c22(case, log, oc, labels):
                     if "speed_profile" in h0:
                         expect_value("Host::get_available_speed of h0 seen by %s" % an, t0, T(r["avail"]), ref.speed_ev, 1.0, 1.0, pre + "observed-speed-differs")
                     if "state_profile" in h0 and r["on"] != Ref.is_on(ref.hstate_ev, t0) and t0 > 0:
-                        oc.bad("observed-host-state-differs", "%s sees h0 %s at %r" % (an, "on" if r["on"] else "off", t0))
+                        oc.bad(pre + "observed-host-state-differs", "%s sees h0 %s at %r" % (an, "on" if r["on"] else "off", t0))
                 continue
             if op[0] == "sleep":
                 want = ("done", t0 + max(op[1], 0.0)) if t0 + op[1] < death or math.isinf(death) else (("tie", death) if close(t0 + op[1], death) else ("fail", death))
@@ -393,14 +393,14 @@ def check_c22(case, log, oc, labels):
                                "%s %s started at %r ended at %r, the integral of the speed profile gives %r" % (an, op, t0, t1, want[1]))
                 else:
                     if local:
-                        oc.bad("dead-actor-goes-on", "w0 %s started at %r returned at %r although h0 goes off at %r" % (op, t0, t1, want[1]))
+                        oc.bad(pre + "dead-actor-goes-on", "w0 %s started at %r returned at %r although h0 goes off at %r" % (op, t0, t1, want[1]))
                     elif ok or nxt.get("exc") != "HostFailure":
                         oc.bad(pre + "failure-not-reported", "r0 %s started at %r returned %s at %r although h0 goes off at %r" % (op, t0, nxt.get("exc", "normally"), t1, want[1]))
                     elif not close(t1, want[1]):
                         oc.bad(pre + "failure-at-wrong-date", "r0 %s started at %r got HostFailure at %r, h0 goes off at %r" % (op, t0, t1, want[1]))
             elif nxt["k"] == "on_exit" and local:
                 if want[0] == "done":
-                    oc.bad("killed-without-cause", "w0 %s started at %r: on_exit at %r (failed=%s), expected completion at %r" % (op, t0, t1, nxt["failed"], want[1]))
+                    oc.bad(pre + "killed-without-cause", "w0 %s started at %r: on_exit at %r (failed=%s), expected completion at %r" % (op, t0, t1, nxt["failed"], want[1]))
                 elif not close(t1, want[1]) or not nxt["failed"]:
                     oc.bad(pre + "kill-at-wrong-date", "w0 %s started at %r: on_exit(failed=%s) at %r, h0 goes off at %r" % (op, t0, nxt["failed"], t1, want[1]))
                 else:
